@@ -195,4 +195,37 @@ example :
     = .ok (.map [("db", .map [("condition", .str "service_healthy"), ("required", .bool true)]), ("cache", startedRequired)]) := by
   rfl
 
+/-! ## any number of further documents -/
+
+/-- whatever is merged afterwards, two first documents with the same canonical tree load alike -/
+theorem loadDocsC_first_congr (ign : Bool) (d d' : Val) (rest : List Val) (h : canonical ign d = canonical ign d') :
+    loadDocsC ign d rest = loadDocsC ign d' rest := by
+  simp only [loadDocsC, h]
+
+/-- `depends_on: [names]` ≡ its long mapping in the first document of a multi-document load: any surrounding document
+(`docWith`), any list of further documents (each merged by `override.Merge`, followed by `Canonical`) -/
+theorem multiDoc_dependsOn_first (ign : Bool) (top1 top2 svcs1 svcs2 a b : Val.KVs) (n : String)
+    (names : List String) (hnd : names.Nodup) (rest : List Val) :
+    loadDocsC ign (docWith top1 top2 svcs1 svcs2 a b n "depends_on" (.seq (names.map Val.str))) rest
+      = loadDocsC ign (docWith top1 top2 svcs1 svcs2 a b n "depends_on" (.map (names.map (fun x => (x, startedRequired))))) rest :=
+  loadDocsC_first_congr ign _ _ rest (canonical_dependsOn_short_eq_long ign top1 top2 svcs1 svcs2 a b n names hnd)
+
+/-- the same for service `networks`, a short volume spec and a short port spec in the first document -/
+theorem multiDoc_networks_volume_first (ign : Bool) (top1 top2 svcs1 svcs2 a b : Val.KVs) (n : String)
+    (names : List String) (hnd : names.Nodup) (pre post : List Val) (sp : Spec.VolSpec) (hsp : sp.wf = true) (rest : List Val) :
+    loadDocsC ign (docWith top1 top2 svcs1 svcs2 a b n "networks" (.seq (names.map Val.str))) rest
+      = loadDocsC ign (docWith top1 top2 svcs1 svcs2 a b n "networks" (.map (names.map (fun x => (x, Val.null))))) rest
+    ∧ loadDocsC ign (docWith top1 top2 svcs1 svcs2 a b n "volumes" (.seq (pre ++ .str (String.ofList sp.render) :: post))) rest
+      = loadDocsC ign (docWith top1 top2 svcs1 svcs2 a b n "volumes"
+          (.seq (pre ++ encodeVol { sp.long with target := cleanTarget sp.long.target } :: post))) rest :=
+  ⟨loadDocsC_first_congr ign _ _ rest (canonical_networks_short_eq_long ign top1 top2 svcs1 svcs2 a b n names hnd),
+   loadDocsC_first_congr ign _ _ rest (canonical_volume_short_eq_long ign top1 top2 svcs1 svcs2 a b n pre post sp hsp)⟩
+
+/-- non-vacuity: two documents, the second refines `db` -/
+example : (loadDocsC false (.map [("services", .map [("web", .map [("depends_on", .seq [.str "db", .str "cache"])])])])
+      [.map [("services", .map [("web", .map [("depends_on", .map [("db", .map [("condition", .str "service_healthy")])])])])]])
+    = .ok (.map [("services", .map [("web", .map [("depends_on", .map [
+        ("db", .map [("condition", .str "service_healthy"), ("required", .bool true)]), ("cache", startedRequired)])])])]) := by
+  rfl
+
 end CV.Short
